@@ -4,7 +4,7 @@
                     invocation trace EEnter/EExit, the hooks and the action events).  The same function,
                     mirrored in Python (lib/props_c04.py), is the oracle applied to the implementation's log.
      survivors    : transactional truncation of a log: the Action<Rule>::apply/apply0 invocations that
-                    belong to invocations which returned true all the way up (and are not inside look-ahead)
+                    belong to invocations which returned true all the way up
      PegA/peg_acts: the PEG formalism with semantic actions, functional style: evaluating an expression
                     returns the rest of the input AND the list of (rule, begin, end) of the action-carrying
                     rules of the derivation; failing alternatives and look-ahead contribute nothing; a
@@ -75,13 +75,13 @@ Definition astep (st : list aframe) (e : event) : option (list aframe) :=
          and the action input begins where that attempt started *)
       match st with
       | AHook r' b0 None :: AInv r'' true p0 s :: tl =>
-          if Nat.eqb r r' && pos_eqb b b0 then Some (AHook r' b0 (Some (e, vetoes fam r b e)) :: AInv r'' true p0 s :: tl) else None
+          if Nat.eqb r r' && Nat.eqb r r'' && pos_eqb b b0 then Some (AHook r' b0 (Some (e, vetoes fam r b e)) :: AInv r'' true p0 s :: tl) else None
       | _ => None
       end
   | EApply0 fam r e =>
       match st with
       | AHook r' b0 None :: AInv r'' true p0 s :: tl =>
-          if Nat.eqb r r' then Some (AHook r' b0 (Some (e, vetoes fam r b0 e)) :: AInv r'' true p0 s :: tl) else None
+          if Nat.eqb r r' && Nat.eqb r r'' then Some (AHook r' b0 (Some (e, vetoes fam r b0 e)) :: AInv r'' true p0 s :: tl) else None
       | _ => None
       end
   | EInline _ b _ =>
@@ -126,16 +126,17 @@ Definition no_enable (G : grammar) (C : cfg) : Prop :=
   (forall fam r, acts C fam r <> AKMatch MEnableAction).
 
 (* ---------- survivors: transactional truncation ---------- *)
+(* the apply / apply0 invocations that belong to invocations which returned true all the way up to the root:
+   an invocation that returns false or is left by an exception takes everything invoked below it with it.
+   (Look-ahead needs no special case: that it contributes nothing is a CONSEQUENCE, see C04_survivors_exact.) *)
 Definition sact := (rid * bool * pos * pos)%type.       (* rule, apply (true) / apply0 (false), begin, end *)
-Section Surv.
-Variable look : rid -> bool.                              (* at / not_at nodes *)
 Fixpoint surv (stk : list (list sact)) (cur : list sact) (evs : list event) : list sact :=
   match evs with
   | [] => cur
   | EEnter _ _ _ _ _ :: tl => surv (cur :: stk) [] tl
   | EExit _ r o _ :: tl =>
       match stk with
-      | parent :: stk' => surv stk' (if is_true o && negb (look r) then parent ++ cur else parent) tl
+      | parent :: stk' => surv stk' (if is_true o then parent ++ cur else parent) tl
       | [] => surv [] [] tl
       end
   | EApply _ r b e :: tl => surv stk (cur ++ [(r, true, b, e)]) tl
@@ -143,9 +144,6 @@ Fixpoint surv (stk : list (list sact)) (cur : list sact) (evs : list event) : li
   | _ :: tl => surv stk cur tl
   end.
 Definition survivors (evs : list event) : list sact := surv [] [] evs.
-End Surv.
-Definition look_of (G : grammar) (r : rid) : bool :=
-  match nth_error G r with Some nd => match nhead nd with HAt | HNotAt => true | _ => false end | None => false end.
 Definition sact_bytes (x : sact) : rid * bool * N * N :=
   match x with (r, t, b, e) => (r, t, pbyte b, pbyte e) end.
 
